@@ -148,6 +148,7 @@ class World(object):
             if self.disk is not None:
                 self.disk.destroy()
         finally:
+            clear_library_caches()
             self.uuid.uninstall()
             self.clock.uninstall()
             self.residue = self.reg.diff()
@@ -180,6 +181,30 @@ class World(object):
             h.update(ln.encode())
             h.update(b'\n')
         return h.hexdigest()
+
+
+def clear_library_caches():
+    """One run = one fresh process, conceptually: memoisation inside the library (functools caches) must not carry
+    state from one run (or one ddmin candidate) into the next, or replays in a fresh interpreter would not reproduce."""
+    for name, mod in list(sys.modules.items()):
+        if not (name == 'stix2' or name.startswith('stix2.')) or mod is None:
+            continue
+        for obj in list(vars(mod).values()):
+            cc = getattr(obj, 'cache_clear', None)
+            if callable(cc):
+                try:
+                    cc()
+                except Exception:
+                    pass
+            if isinstance(obj, type):
+                for sub in list(vars(obj).values()):
+                    f = getattr(sub, '__func__', sub)
+                    cc = getattr(f, 'cache_clear', None)
+                    if callable(cc):
+                        try:
+                            cc()
+                        except Exception:
+                            pass
 
 
 class RunResult(object):
